@@ -289,9 +289,12 @@ func (t *TracksReader) Do(fn func(TrackEvent)) *TracksReader {
 				} else {
 					msg := ev.Message
 					ty := msg.Type()
+					// an event is handed out once, also if it is of several of the given types
+					// (e.g. Only(midi.ChannelMsg, midi.NoteOnMsg)) or a type is given twice
 					for _, f := range t.filter {
 						if ty.Is(f) {
 							fn(te)
+							break
 						}
 					}
 				}
